@@ -296,3 +296,50 @@ func VerifC04Quick()    { run(3, false) }
 func VerifC04Thorough() { run(5, false) }
 func VerifC04Truncate() { run(3, true) }
 func VerifC04Refused()  { runWith(2, false, true) }
+
+// truncateTwice: main chain g <- a1 <- a2 <- a3 and a side branch g <- b1 <- b2; two truncations in a
+// row to main-chain blocks (the second at or below the first), every query re-checked after each.
+func truncateTwice() {
+	e := vkit.NewEnv("c04t", vkit.Genesis("0", "100", "50"), nil)
+	t := &tree{desc: map[string][]byte{}}
+	t.nodes = append(t.nodes, &node{id: string(e.Root.Blockid), parent: -1, height: 0, txs: []string{string(e.RootTx.Txid)}, blk: e.Root})
+	add := func(parent int, tag string, nonce int32) int {
+		cb := vkit.Coinbase("cb"+tag, "M", []byte{7})
+		b := vkit.Block([]byte(t.nodes[parent].id), nonce, []*pb.Transaction{cb})
+		vrt.Assert(e.L.ConfirmBlock(b, false).Succ, "valid-block-confirmed")
+		n := &node{id: string(b.Blockid), parent: parent, height: t.nodes[parent].height + 1, txs: []string{string(cb.Txid)}, blk: b}
+		t.nodes = append(t.nodes, n)
+		if n.height > t.nodes[t.tip].height {
+			t.tip = len(t.nodes) - 1
+		}
+		return len(t.nodes) - 1
+	}
+	a1 := add(0, "a1", 1)
+	a2 := add(a1, "a2", 2)
+	add(a2, "a3", 3)
+	b1 := add(0, "b1", 4)
+	add(b1, "b2", 5)
+	checkAll(e, t, "built")
+	for round := 0; round < 2; round++ {
+		trunk := t.trunk()
+		k := vrt.Choice("truncate-to", len(trunk))
+		target := trunk[k]
+		err := e.L.Truncate([]byte(t.nodes[target].id))
+		vrt.Assert(err == nil, "truncation-succeeds")
+		if err != nil {
+			return
+		}
+		for _, n := range t.nodes {
+			if n.height > t.nodes[target].height {
+				n.removed = true
+			}
+		}
+		t.tip = target
+		checkAll(e, t, "truncate")
+	}
+	e2 := *e
+	e2.L = e.Reopen()
+	checkAll(&e2, t, "reopen")
+}
+
+func VerifC04TruncateTwice() { truncateTwice() }
